@@ -222,6 +222,10 @@ def attribute_flag(a, ev):
         k_, v_ = og.decision(c[1], c[2])       # (`!self.is_attribute` taken is `self.is_attribute` not taken)
         if k_[0] == "cond" and og.nf_str(k_[1]).endswith("is_attribute"):
             cond = v_
+        if k_[0] == "cond" and isinstance(k_[1], tuple) and k_[1][0] == "islet" and str(k_[1][1]).rsplit("::", 1)[-1] == "Attribute":
+            cond = v_      # the kind of the member kept as an enum: `kind is Attribute`
+        if k_[0] == "cond" and isinstance(k_[1], tuple) and k_[1][0] == "islet" and str(k_[1][1]).rsplit("::", 1)[-1] == "Element" and "ind" in og.nf_str(k_[1][2]):
+            cond = not v_
     return has, cond
 
 
